@@ -161,7 +161,8 @@ def make_sim(root, spec):
                         key = f'{thorn}::{var} it={it} tl=0'
                         if spec.get('m0'):
                             key += ' m=0'
-                        key += f' rl={rl}'
+                        if not spec.get('unigrid'):     # Carpet omits rl= when there is one level
+                            key += f' rl={rl}'
                         if len(boxes) > 1:
                             key += f' c={cnum}'
                         files.setdefault(fn, []).append((key, arr, (x0, y0, z0), it,
@@ -205,7 +206,8 @@ def make_sim(root, spec):
                                     key = f'{thorn}::{var} it={cit} tl={tl}'
                                     if spec.get('m0'):
                                         key += ' m=0'
-                                    key += f' rl={rl}'
+                                    if not spec.get('unigrid'):     # Carpet omits rl= when there is one level
+                                        key += f' rl={rl}'
                                     if len(boxes) > 1:
                                         key += f' c={cnum}'
                                     ds = f.create_dataset(key, data=arr)
